@@ -67,6 +67,28 @@ def run(tier, replay_file=None):
             R.violation(bad["clause"], bad)
             if len(R.violations) >= 20:
                 break
+    # (a2) every crash point again on reference models whose clock starts at time 0 (the Model default) and at 0.5 with a decimal
+    # dt: the externalised clock of a session that has not stepped yet is 0.0
+    for g in ((0.0, 1.0), (0.5, 0.25)):
+        if R.violations:
+            break
+        first = [h for h in hs if any(a["op"] == "Begin" and b["op"] == "Crash" for a, b in zip(h, h[1:]))]     # lost before the first step
+        rest = [h for h in hs if h not in first]
+        if quick:
+            import random as _r0
+            rest = _r0.Random(common.seed() + 6).sample(rest, min(len(rest), 150))
+        for hist in first + rest:
+            known = []
+            bad = srv_replay.replay(hist, stop=4, adapter=True, base_constants=True, known=known, probe=True, grid=g)
+            R.add("traces_validated_against_impl"); R.add("crash_point_histories_other_grids")
+            crashes += sum(1 for x in hist if x["op"] == "Crash")
+            for k in known:
+                known_total[k[0]] = known_total.get(k[0], 0) + 1
+            if bad:
+                bad["grid"] = {"start": g[0], "dt": g[1]}
+                R.violation(bad["clause"], bad)
+                if len(R.violations) >= 20:
+                    break
     # (c) the compressing adapter: instances externalised before any session exists, server lost, restart, then used
     # (generated with the faithful model of the compressed format too, so that KF-C19-1 - setting-less steps vanish from the
     # restored settings log - is recognised by its own match rule and nothing else is)
